@@ -215,6 +215,11 @@ func TestVerifC05(t *testing.T) {
 		if busy != 0 {
 			r.Count("loops_with_bursts_at_tick_instants", 1)
 		}
+		var linkAt time.Duration
+		if k%5 == 2 {
+			linkAt = 4*hi + time.Duration(rr.Int63n(int64(hi)))
+			r.Count("loops_with_link_flap", 1)
+		}
 		var ev []vfake.Event
 		returned := false
 		var stopT time.Duration
@@ -243,6 +248,13 @@ func TestVerifC05(t *testing.T) {
 			case 3:
 				go burstAt(-time.Nanosecond)
 			}
+			if linkAt > 0 {
+				// the link flaps: the interface is re-initialised and must go on
+				// requesting unsolicited RAs, by the same rules, in its new life
+				h.at(linkAt)
+				h.tr.Add(vfake.Event{Kind: "link_event"})
+				h.watchC <- 2 // netstate.LinkDown
+			}
 			h.at(horizon + time.Duration(rr.Int63n(int64(hi))))
 			stopT = h.tr.Now()
 			h.stop(false)
@@ -255,11 +267,21 @@ func TestVerifC05(t *testing.T) {
 			r.Violation(id, "bubble-panic", pm, map[string]any{"min": lo.String(), "max": hi.String()})
 			continue
 		}
-		var ts []time.Duration
+		var ts, ts1 []time.Duration // ts: the last generation; ts1: the one before the link flap
+		lastGen := 0
 		for _, e := range ev {
 			if e.Kind == "write_begin" && e.Dst == vAllNodes.String() {
+				if e.Gen != lastGen && lastGen != 0 {
+					ts1, ts = ts, nil
+				}
+				lastGen = e.Gen
 				ts = append(ts, e.T)
 			}
+		}
+		if linkAt > 0 && ts1 == nil {
+			r.Violation(id, "stopped-requesting", fmt.Sprintf("after the link flap at %v the interface was never advertised on again although it was not stopped", linkAt),
+				map[string]any{"min": lo.String(), "max": hi.String(), "multicast_times": fmt.Sprint(ts)})
+			continue
 		}
 		det := map[string]any{"min": lo.String(), "max": hi.String(), "multicast_times": fmt.Sprint(ts)}
 		if !returned {
@@ -276,7 +298,18 @@ func TestVerifC05(t *testing.T) {
 			r.Violation(id, "stopped-requesting", fmt.Sprintf("only %d multicast RAs in %v", len(ts), horizon), det)
 			continue
 		}
-		req := append([]time.Duration{0}, ts[2:]...)
+		req := append([]time.Duration{ts[0]}, ts[2:]...)
+		if len(ts1) >= 3 {
+			// the life before the flap is judged by the same rules (waits only)
+			req1 := append([]time.Duration{ts1[0]}, ts1[2:]...)
+			for i := 1; i < len(req1); i++ {
+				if w := req1[i] - req1[i-1]; w%time.Second != 0 || w > vCeilSec(hi) || (i-1 < 3 && w > 16*time.Second) || (w < vFloorSec(lo) && !(i-1 < 3 && w == 16*time.Second)) {
+					r.Violation(id, "loop-wait", fmt.Sprintf("wait %d between unsolicited RAs before the link flap is %v", i-1, w), det)
+					break
+				}
+				r.Count("waits_observed", 1)
+			}
+		}
 		for i := 1; i < len(req); i++ {
 			w := req[i] - req[i-1]
 			r.Count("waits_observed", 1)
